@@ -23,6 +23,7 @@ import (
 	"github.com/libsv/go-bt/v2"
 	"pgregory.net/rapid"
 
+	"verif/harness/gen"
 	"verif/harness/pbt"
 )
 
@@ -85,7 +86,9 @@ func (l lyingSize) Size() int64 { return l.claim }
 
 // readerKinds: the dynamic type of the reader is an axis of its own (append only).
 var readerKinds = []string{"bytes.Reader", "bytes.Buffer", "strings.Reader", "nolen", "onebyte",
-	"bufio", "section-overstated", "section-exact", "lying-len", "lying-len-negative", "lying-size", "limit", "multi", "half", "dataerr"}
+	"bufio", "section-overstated", "section-exact", "lying-len", "lying-len-negative", "lying-size", "limit", "multi", "half", "dataerr",
+	// round 9, behaviours played by the scripted reader (behaviour_test.go: namedScript)
+	"pause-each", "pause-each-onebyte", "pause-bytereader", "eofdata-7", "faildata-mid", "faildata-end"}
 
 // runReader is run() of c09_test.go for the reader-based entry points with a
 // chosen kind of reader; bytes delivered = what the source has handed over.
@@ -132,6 +135,11 @@ func runReader(entry, kind string, data []byte, meter func() uint64) (outcome, u
 	case "lying-size":
 		r, delivered = lyingSize{cnt, 1 << 40}, viaCnt
 	default:
+		if sc, ok := namedScript(kind, len(data)); ok {
+			sr, core := gen.C09NewScriptReader(data, sc)
+			r, delivered = sr, func() int64 { return core.Delivered }
+			break
+		}
 		r, delivered = src, func() int64 { return int64(len(data) - src.Len()) }
 	}
 	var call func()
